@@ -35,7 +35,22 @@ KNOBS = {
 
 
 def gen(rs: int, tier: str, index: int) -> dict:
-    return gen_worker_script(rs, tier_knobs(KNOBS, tier, index))
+    s = gen_worker_script(rs, tier_knobs(KNOBS, tier, index))
+    if index % 8 == 5 and s["config"]["workers"] == 1:
+        # programmatic entry point taskiq.api.run_receiver_task: broker.listen() fails once or twice while tasks are in flight and the
+        # worker re-subscribes; the bound is judged per receiver session (deliveries taken between two listen failures)
+        from sim.rng import stream
+        r = stream(rs, "c04api")
+        n = len(s["messages"])
+        s["config"]["entry"] = "api"
+        s["config"]["N"] = None
+        fails = sorted(r.randint(1, max(1, n - 2)) for _ in range(r.choice([1, 1, 2])))
+        s["config"]["listen_fail_after"] = fails
+        for m in s["messages"]:
+            if isinstance(m.get("task"), int) and s["tasks"][m["task"]].get("sync"):
+                m["task"] = 0
+                m.pop("pool_delay_us", None)
+    return s
 
 
 def oracle(script: dict, run: Any) -> List[Violation]:
@@ -46,19 +61,26 @@ def oracle(script: dict, run: Any) -> List[Violation]:
     if not A:
         return out
     bound = A + P + 1
-    unfinished: Dict[str, int] = {}
-    node_of_d: Dict[Any, str] = {}
+    unfinished: Dict[Any, int] = {}
+    node_of_d: Dict[Any, Any] = {}
     open_parts: Dict[Any, set] = {}      # per delivery: which parts are still running ("cb" = callback(), "fn" = the task function)
+    session_now: Dict[str, int] = {}
     for e in h.events:
         d = e[4]
-        if e[3] == "take":
-            node_of_d[d] = e[2]
+        if e[3] == "listen_fail":
+            # run_receiver_task re-subscribes with a new receiver: a new session with its own bound starts on that worker
+            wn = f"w{e[5]['w']}"
+            session_now[wn] = session_now.get(wn, 0) + 1
+        elif e[3] == "take":
+            key = (e[2], session_now.get(e[2], 0))
+            node_of_d[d] = key
             open_parts[d] = {"cb"}
-            unfinished[e[2]] = unfinished.get(e[2], 0) + 1
-            if unfinished[e[2]] > bound:
+            unfinished[key] = unfinished.get(key, 0) + 1
+            if unfinished[key] > bound:
                 out.append(Violation("C04/bound-exceeded",
-                                     f"worker {e[2]} holds {unfinished[e[2]]} taken-but-unfinished messages > A+P+1={bound} at event {e[0]} (t={e[1]}us)",
-                                     event=e[0], held=unfinished[e[2]], bound=bound))
+                                     f"worker {e[2]} holds {unfinished[key]} taken-but-unfinished messages > A+P+1={bound} at event {e[0]} (t={e[1]}us)"
+                                     + (f", all taken after listen failure #{key[1]}" if key[1] else ""),
+                                     event=e[0], held=unfinished[key], bound=bound))
                 break
         elif e[3] == "fn_enter" and d in open_parts and open_parts[d]:
             open_parts[d].add("fn")
@@ -79,7 +101,13 @@ def probes(script: dict, run: Any) -> Dict[str, int]:
     h = Hist(run)
     cfg = script["config"]
     A, P = cfg.get("A"), cfg.get("P", 0)
-    res = {"bound_reached_exactly": 0, "backlog_left_on_server_while_saturated": 0, "multi_worker": int(cfg["workers"] > 1)}
+    res = {"bound_reached_exactly": 0, "backlog_left_on_server_while_saturated": 0, "multi_worker": int(cfg["workers"] > 1),
+           "resubscribed_after_listen_failure_with_tasks_in_flight": 0}
+    for lf in h.kind("listen_fail"):
+        ent = {e[4] for e in h.kind("cb_enter") if e[0] < lf[0]}
+        ext = {e[4] for e in h.kind("cb_exit") if e[0] < lf[0]}
+        if ent - ext:
+            res["resubscribed_after_listen_failure_with_tasks_in_flight"] = 1
     if not A:
         return res
     bound = A + P + 1
